@@ -2,6 +2,8 @@
 props_misc.py — checks of C12 (exchanged containers are snapshots) and C13 (read-only
 operations leave the graph unchanged, even when a callback raises).
 """
+from collections.abc import Mapping
+
 import gen
 import witnesses as W
 from engine import Check, Violation
@@ -14,7 +16,7 @@ from edgegraph.traversal import helpers, breadthfirst, depthfirst
 def freeze(v, depth=0):
     if isinstance(v, (list, tuple)):
         return (type(v).__name__,) + tuple(freeze(x, depth + 1) for x in v)
-    if isinstance(v, dict):
+    if isinstance(v, Mapping):
         return ("dict",) + tuple((freeze(k, depth + 1), freeze(x, depth + 1)) for k, x in v.items())
     if isinstance(v, (set, frozenset)):
         return ("set",) + tuple(sorted(id(x) for x in v))
@@ -23,13 +25,33 @@ def freeze(v, depth=0):
     return ("obj", id(v))
 
 
+_PROPS = {}
+
+
+def public_props(cls):
+    """names of the public properties of a class (anything a user can read without an underscore)"""
+    if cls not in _PROPS:
+        _PROPS[cls] = sorted(n for n in dir(cls) if not n.startswith("_") and isinstance(getattr(cls, n, None), property))
+    return _PROPS[cls]
+
+
 def deep(real):
-    """attribute-name sets, values and container contents of every object; memo contents ignored"""
+    """the graph as a user can see it: for every object its public properties (links, vertices, v1, v2,
+    universes, uid, laws, applies_to, the rule attributes …) and its public instance attributes (user
+    attributes), with the contents of containers.  Private attributes (names starting with an
+    underscore: internal lists already visible through the properties, memos, counters) are NOT
+    compared — a rewrite of the internals is not a change of the graph."""
     out = []
     for o in list(real.V) + list(real.L) + list(real.W):
         d = {}
         for k, v in vars(o).items():
-            d[k] = "memo" if k == "_Vertex__qa_nb_cache" else freeze(v)
+            if not k.startswith("_"):
+                d["attr:" + k] = freeze(v)
+        for n in public_props(type(o)):
+            try:
+                d["prop:" + n] = freeze(getattr(o, n))
+            except Exception as exc:  # noqa: BLE001   (v1 / v2 of a link with too few ends)
+                d["prop:" + n] = ("raises", type(exc).__name__)
         out.append((id(o), type(o).__name__, tuple(sorted(d.items(), key=lambda kv: kv[0]))))
     return out
 
